@@ -19,49 +19,14 @@ import numpy as np
 
 from treadmill import scheduler
 
-from pbt import vclock
+from pbt import capture, vclock
 from pbt.run import Violation
 
 LEVELS = ('server', 'rack', 'pod', 'cell')
 
-_RECORDER = [None]
-_ORIG_FIND = scheduler.Cell._find_placements  # pylint: disable=W0212
-
-
-def _find_wrapper(self, queue, servers):
-    rec = _RECORDER[0]
-    if rec is not None:
-        rec.on_queue(self, queue, servers)
-    return _ORIG_FIND(self, queue, servers)
-
-
-scheduler.Cell._find_placements = _find_wrapper  # pylint: disable=W0212
-
-
-def _where(err):
-    """Innermost treadmill frame of an exception (function name)."""
-    tback = err.__traceback__
-    name = '?'
-    while tback is not None:
-        fname = tback.tb_frame.f_code.co_filename
-        if '/treadmill/' in fname:
-            name = tback.tb_frame.f_code.co_name
-        tback = tback.tb_next
-    return name
-
-
-def walk_servers(node, out=None):
-    """Collect Server leaves by walking the tree (not Cell.members())."""
-    if out is None:
-        out = {}
-    for child in node.children:
-        if child is None:
-            continue
-        if isinstance(child, scheduler.Server):
-            out[child.name] = child
-        else:
-            walk_servers(child, out)
-    return out
+walk_servers = capture.walk_servers
+_where = capture.where
+CycleInfo = capture.CycleInfo
 
 
 def ancestors(node):
@@ -72,20 +37,6 @@ def ancestors(node):
         res.append(node)
         node = node.parent
     return res
-
-
-class CycleInfo(object):
-    """What one scheduling cycle looked like from the outside."""
-
-    def __init__(self):
-        self.c0 = None
-        self.c1 = None
-        self.before = {}
-        self.after = {}
-        self.queues = []      # [(label, [(name, rank, had_server)])]
-        self.server_state_before = {}
-        self.result = None
-        self.flags_before = {}
 
 
 class CellSim(object):
@@ -390,51 +341,23 @@ class CellSim(object):
         if self.stats is not None:
             self.stats.count(key, amount)
 
-    def snapshot(self):
-        snap = {}
-        for name, app in self.cell.apps.items():
-            snap[name] = (app.server, app.placement_expiry, app.identity)
-        return snap
-
-    def on_queue(self, cell, queue, _servers):
-        info = self.last_info
-        label = None
-        for app in queue:
-            if app.allocation is not None:
-                label = app.allocation.label
-                break
-        info.queues.append((label, [
-            (app.name, app.final_rank, app.server) for app in queue
-        ]))
+    def on_cycle(self, info):
+        self.last_info = info
 
     def cycle(self):
-        info = CycleInfo()
-        self.last_info = info
-        servers = self.servers()
-        info.before = self.snapshot()
-        info.server_state_before = {
-            name: srv.get_state() for name, srv in servers.items()
-        }
-        info.flags_before = {
-            name: {
-                'blacklisted': app.blacklisted, 'renew': app.renew,
-                'unschedule': app.unschedule, 'priority': app.priority,
-                'evicted': app.evicted,
-            } for name, app in self.cell.apps.items()
-        }
-        info.c0 = self.clock.peek()
-        _RECORDER[0] = self
+        capture.activate(self)
         try:
-            info.result = self.cell.schedule()
+            self.cell.schedule()
+        except Violation:
+            raise
         except Exception as err:  # pylint: disable=broad-except
             raise Violation(
                 'crash.%s.%s' % (type(err).__name__, _where(err)),
                 'scheduling cycle did not complete: %r at %s' %
                 (err, _where(err)))
         finally:
-            _RECORDER[0] = None
-        info.c1 = self.clock.peek()
-        info.after = self.snapshot()
+            capture.deactivate()
+        info = self.last_info
         self.cycles += 1
         self.stats_count('cycles')
         for name, (srv, _exp, _ident) in info.after.items():
